@@ -254,6 +254,74 @@ def dangling_rule(prog, res):
     res.minimum('reference-returning return statements', n, 30)
 
 
+def stale_reference_rule(prog, res):
+    """(a) a local reference bound to an element of a member container must not be used after a call
+    that may grow/shrink that container (reallocation frees the element);
+    (b) a pointer obtained from c_str()/data() of a temporary must not outlive the declaration."""
+    E = FX.get(prog)
+    nrefs = 0
+    for f in prog.repo_funcs():
+        g = None
+        R = None
+        for n in f.all_nodes({'DeclStmt'}):
+            for d in n['decls']:
+                if d['dk'] != 'local' or 'init' not in d:
+                    continue
+                # (b) pointer into a temporary
+                if d.get('tc') == 'p':
+                    i = f.nodes[f.strip(d['init'], 'all')]
+                    if i['k'] == 'CXXMemberCallExpr' and i['callee']['name'] in ('c_str', 'data') and i.get('obj') is not None:
+                        o = f.nodes[f.strip(i['obj'], 'noop')]
+                        while o['k'] in ('MaterializeTemporaryExpr', 'CXXBindTemporaryExpr', 'ExprWithCleanups', 'ImplicitCastExpr') and o['ch']:
+                            o = f.nodes[f.strip(o['ch'][0], 'noop')]
+                        is_temp = o['k'] in ('CallExpr', 'CXXMemberCallExpr', 'CXXOperatorCallExpr', 'CXXConstructExpr', 'CXXTemporaryObjectExpr', 'CXXFunctionalCastExpr') and \
+                            not (o.get('callee', {}).get('ret', '').endswith('&'))
+                        uses = [x for x in f.all_nodes({'DeclRefExpr'}) if x['decl'].get('id') == d['id'] and x['decl'].get('dk') == 'local']
+                        if is_temp and uses:
+                            res.viol('dangling', 'pointer `%s` into a temporary' % d['name'], f.loc(n['id']),
+                                     '%s() of a temporary object is kept in a local pointer: the temporary is destroyed at the end of the declaration and the pointer is used afterwards (%s)' %
+                                     (i['callee']['name'], f.loc(uses[0]['id'])), function=f.sig, expr='temp-ptr:' + d['name'])
+                    continue
+                if not d.get('isref') or d['type'].startswith('const ') and False:
+                    continue
+                kind, path = root_of(f, d['init'])
+                if kind not in ('this', 'param') or '[]' not in path:
+                    continue
+                nrefs += 1
+                g = g or f.events()
+                R = R or Renderer(f)
+                dv = g.vertex_of.get(n['id'])
+                # containers on the way to the element: every prefix ending right before a '[]'
+                conts = [tuple(path[:k]) for k, c in enumerate(path) if c == '[]']
+                root = 'this' if kind == 'this' else 'param:' + path[0][1:]
+                if kind == 'param':
+                    conts = [c[1:] for c in conts]
+                uses = [x for x in f.all_nodes({'DeclRefExpr'}) if x['decl'].get('id') == d['id'] and x['decl'].get('dk') == 'local']
+                bad = None
+                for e in E.events_of(f, root):
+                    nid, _, epath, ekind = e
+                    if ekind not in ('append', 'resize', 'insert', 'erase') and not (ekind == 'assign' and tuple(epath) in conts):
+                        continue
+                    if tuple(epath) not in conts:
+                        continue
+                    ev = g.vertex_of.get(nid)
+                    if ev is None or dv is None or ev not in g.reach([dv]):
+                        continue
+                    later = [u for u in uses if g.vertex_of.get(u['id']) in g.reach([ev]) and u['id'] not in f.descendants(nid)]
+                    if later:
+                        bad = (e, later[0])
+                        break
+                if bad:
+                    e, u = bad
+                    res.viol('dangling', 'reference `%s` to an element of %s' % (d['name'], '.'.join(path[:path.index('[]')])), f.loc(u['id']),
+                             'the reference is bound to an element of a container at %s, the container may be reallocated by %s at %s, and the reference is used afterwards' %
+                             (f.loc(n['id']), FX.fmt(e), f.loc(e[0])), function=f.sig, expr='stale-ref:' + d['name'])
+                else:
+                    res.ok('dangling', 'reference `%s` to a container element' % d['name'], f.loc(n['id']), 'no resizing of %s between the binding and the uses' % '.'.join(path[:path.index('[]')]),
+                           function=f.sig, expr='stale-ref:%s@%d' % (d['name'], n['id']))
+    res.minimum('local references to container elements', nrefs, 2)
+
+
 def raw_owner_rule(prog, res):
     al = _c08.aliasing_classes(prog)
     for q, c in sorted(prog.classes.items()):
@@ -354,6 +422,7 @@ def run(prog, tier):
     buffer_contract_rule(prog, res)
     string_width_rule(prog, res)
     dangling_rule(prog, res)
+    stale_reference_rule(prog, res)
     raw_owner_rule(prog, res)
     reloc_stable_rule(prog, res)
     import indexsites
